@@ -25,6 +25,10 @@ H2P = "polynomial::hash_to_point"
 
 def run(R):
     S = Session()
+    core(R, S, "C14")
+
+
+def core(R, S, PFX):
     ctx, E, prog = S.ctx, S.E, S.prog
     R.trust("rustc MIR (nightly)", "E0 fact extractor", "E2 abstract interpreter and models of sha3's Update/ExtendableOutput/XofReader", "sha3 crate (SHAKE-256)")
     inst = S.find(H2P)
@@ -67,61 +71,62 @@ def run(R):
 
     for n in (512, 1024):
         outs, obls = go(n)
-        record_obligations(R, "C14-asserts", obls)
+        record_obligations(R, PFX + "-asserts", obls)
         site = f"hash_to_point n={n}"
         # (1) XOF identity and absorption
         names = sorted(set(ev["shake"]))
-        R.check(len(names) >= 1 and all("Shake256" in x for x in names), "C14-xof", site,
+        R.check(len(names) >= 1 and all("Shake256" in x for x in names), PFX + "-xof", site,
                 f"hash calls resolve to SHAKE-256 only: {[x.split(' as ')[-1] for x in names]}", key=f"xof|{n}")
         ab = ev["absorb"]
         ok = len(ab) == 1 and type(ab[0][0]) is Pt and ab[0][0].key == ("h", "string") and not ab[0][0].proj
-        R.check(ok, "C14-absorb", site, "exactly one `update`, with exactly the input slice", f"absorb events: {ab}", key=f"absorb|{n}")
-        R.check(ev["squeeze"] and all(x == 2 for x in ev["squeeze"]), "C14-squeeze", site, "every squeeze reads exactly 2 bytes", f"squeeze sizes {ev['squeeze']}", key=f"squeeze|{n}")
+        R.check(ok, PFX + "-absorb", site, "exactly one `update`, with exactly the input slice", f"absorb events: {ab}", key=f"absorb|{n}")
+        R.check(ev["squeeze"] and all(x == 2 for x in ev["squeeze"]), PFX + "-squeeze", site, "every squeeze reads exactly 2 bytes", f"squeeze sizes {ev['squeeze']}", key=f"squeeze|{n}")
         # (3),(4) predicate and reduction
         news = ev["new"]
         if not news:
-            R.violation("C14-pred", site, "no call to Felt::new observed on the push path", key=f"pred|{n}")
+            R.violation(PFX + "-pred", site, "no call to Felt::new observed on the push path", key=f"pred|{n}")
         for (arg_itv, p, t_itv) in news[:1]:
-            R.check(p == ("mod", Q), "C14-reduce", site, f"pushed value is (t mod {Q})", f"argument provenance {p}", key=f"reduce|{n}")
-            R.check(t_itv == (0, HASH_REJECT - 1), "C14-pred", site,
+            R.check(p == ("mod", Q), PFX + "-reduce", site, f"pushed value is (t mod {Q})", f"argument provenance {p}", key=f"reduce|{n}")
+            R.check(t_itv == (0, HASH_REJECT - 1), PFX + "-pred", site,
                     f"push is reached exactly for t in [0,{HASH_REJECT - 1}] out of [0,65535] (reject >= 5q = {HASH_REJECT})",
                     f"push reached for t in {t_itv}, specification: [0,{HASH_REJECT - 1}]", key=f"pred|{n}", data={"t": t_itv})
-            R.check(arg_itv[0] >= 0 and arg_itv[1] <= Q - 1, "C14-reduce", site, f"argument of Felt::new in {arg_itv}", key=f"redrange|{n}")
-        R.check(ev["push"] and all(x is not None and 0 <= x[0] and x[1] <= Q - 1 for x in ev["push"]), "C14-range", site,
+            R.check(arg_itv[0] >= 0 and arg_itv[1] <= Q - 1, PFX + "-reduce", site, f"argument of Felt::new in {arg_itv}", key=f"redrange|{n}")
+        R.check(ev["push"] and all(x is not None and 0 <= x[0] and x[1] <= Q - 1 for x in ev["push"]), PFX + "-range", site,
                 f"every pushed coefficient in {ev['push'][:1]} within [0,q)", key=f"range|{n}")
         # (5) length
         if outs:
             ret, rst = outs[0]
             sq = ret.f[0] if type(ret) is Ag else None
             ln = rst.itv[sq.len.vid] if type(sq) is Sq else None
-            R.check(ln == (n, n), "C14-len", site, f"result has exactly {n} coefficients", f"length interval {ln}", key=f"len|{n}")
+            R.check(ln == (n, n), PFX + "-len", site, f"result has exactly {n} coefficients", f"length interval {ln}", key=f"len|{n}")
             e = sq.elem if type(sq) is Sq else None
             ei = rst.itv[e.f[0].vid] if type(e) is Ag else None
-            R.check(ei is not None and 0 <= ei[0] and ei[1] <= Q - 1, "C14-range", site + " (result)", f"coefficients in {ei}", key=f"resrange|{n}")
+            R.check(ei is not None and 0 <= ei[0] and ei[1] <= Q - 1, PFX + "-range", site + " (result)", f"coefficients in {ei}", key=f"resrange|{n}")
         else:
-            R.violation("C14-len", site, "no return", key=f"len|{n}")
+            R.violation(PFX + "-len", site, "no return", key=f"len|{n}")
     # (2) byte order: pin one byte to zero
     outs, _ = go(512, hook=lambda i: (0, 0) if i == 0 else (0, 255))
     t_a = ev["new"][0][2] if ev["new"] else None
     outs, _ = go(512, hook=lambda i: (0, 255) if i == 0 else (0, 0))
     t_b = ev["new"][0][2] if ev["new"] else None
     ctx.hooks.pop("xof_bytes", None)
-    R.check(t_a == (0, 255) and t_b is not None and t_b[0] == 0 and t_b[1] == min(0xFF00, HASH_REJECT - 1), "C14-endian", "hash_to_point",
+    R.check(t_a == (0, 255) and t_b is not None and t_b[0] == 0 and t_b[1] == min(0xFF00, HASH_REJECT - 1), PFX + "-endian", "hash_to_point",
             "first byte is the high byte (big-endian): byte0=0 gives t in [0,255]; byte1=0 gives t up to 0xFF00 (capped by the accept range)",
             f"byte0=0 -> t in {t_a}; byte1=0 -> t in {t_b}", key="endian")
     # threshold agrees with the reference implementation
     for n in (512, 1024):
         pq = pqclean(n)
-        R.check(pq["hash_reject"] == HASH_REJECT, "C14-sib", f"PQClean falcon-{n} common.c", f"reference rejects w >= {pq['hash_reject']}", key=f"pq|{n}")
+        R.check(pq["hash_reject"] == HASH_REJECT, PFX + "-sib", f"PQClean falcon-{n} common.c", f"reference rejects w >= {pq['hash_reject']}", key=f"pq|{n}")
     # (5b) n only feeds comparisons
     uses = n_uses(body)
-    R.check(uses["other"] == 0 and uses["cmp"] >= 1, "C14-nflow", H2P, f"parameter n is used only in {uses['cmp']} comparison(s) (loop exit)",
+    R.check(uses["other"] == 0 and uses["cmp"] >= 1, PFX + "-nflow", H2P, f"parameter n is used only in {uses['cmp']} comparison(s) (loop exit)",
             f"n is also used in {uses['other']} non-comparison statement(s): {uses['where']}", key="nflow")
     # (6) determinism
-    effects.cone_is_deterministic(R, prog, [inst.id], "C14-effects", H2P)
+    effects.cone_is_deterministic(R, prog, [inst.id], PFX + "-effects", H2P)
+    ctx.observers.remove(obs)
     R.analysed["unsupported"] = S.unsupported[:10]
     R.analysed["models_used"] = sorted(ctx.models_used)
-    R.floor("abstract runs", 4, 4)
+    R.floor("abstract runs (hash_to_point)", 4, 4)
 
 
 def n_uses(body):
